@@ -1873,7 +1873,46 @@ pub fn plainify(e: &mut EnumSpec) -> bool {
             }
         }
     }
+    if e.mixed_case_overlap {
+        return bail(e, backup);
+    }
+    if e.has_generics() {
+        for g in e.groups.iter_mut() {
+            g.retain(|a| !matches!(a, EAttr::UsePhf));
+        }
+    }
+    // attributes no derive of this enum reads, and companions that contradict each other, go
+    let derives = e.derives.clone();
+    for g in e.groups.iter_mut() {
+        g.retain(|a| plain::enum_attr_consumed(&derives, a));
+    }
     e.groups.retain(|g| !g.is_empty());
+    let lists_names = derives.iter().any(|d| d == "VariantNames" || d == "EnumMessage");
+    let has_enum_string = derives.iter().any(|d| d == "EnumString");
+    for v in e.variants.iter_mut() {
+        let (is_default, disabled, transparent) = (v.is_default(), v.disabled(), v.transparent());
+        for g in v.groups.iter_mut() {
+            g.retain(|a| {
+                if !plain::variant_attr_consumed(&derives, a) {
+                    return false;
+                }
+                match a {
+                    VAttr::DefaultWith => !is_default && !disabled,
+                    VAttr::Serialize(_) => !is_default && !transparent && (!disabled || lists_names),
+                    VAttr::ToString(_) => !transparent && (!disabled || lists_names),
+                    VAttr::Transparent => !disabled && !is_default,
+                    VAttr::Ci(_) | VAttr::Message(_) | VAttr::Detailed(_) | VAttr::Props(_) => !disabled,
+                    _ => true,
+                }
+            });
+        }
+        v.groups.retain(|g| !g.is_empty());
+        if !has_enum_string || is_default || disabled {
+            for f in v.fields.iter_mut() {
+                f.default_with = false;
+            }
+        }
+    }
     // identifiers
     let mut used: Vec<String> = e.variants.iter().map(|v| model::snake_method(&v.ident)).collect();
     for vi in 0..e.variants.len() {
